@@ -1,5 +1,6 @@
 import MxModel.Proofs.ExecTrace
 import MxModel.Exec.Expr
+import MxModel.Proofs.ExprBind
 /-! Every formula of the concrete grammar compiles to a `Proper` behaviour, so `ProperEnv`
 holds for every environment the driver builds. -/
 namespace MxModel.Exec
@@ -99,6 +100,15 @@ theorem compile_proper (ar : CellId → Option Nat) (params : List Val) :
       (fun v => compile_proper ar params b live _ h (fun _ => hk v) hh) ⟨fun e => ?_, fun e => ?_⟩
     · exact compile_proper ar params b live _ h (fun _ => hh.1 e) hh
     · exact compile_proper ar params b true _ h (fun _ => hh.2 e) hh.of
+  | .callK c args npos kws dflt, live, k, h, hk, hh => by
+    simp only [compile]
+    split
+    · exact hh.1 _
+    · refine compileArgs_proper ar params args live _ h (fun vs => ?_) hh
+      split
+      · simp only [ProperL]
+        exact ⟨fun v => hk v, fun e => hh.2 e⟩
+      · exact hh.1 _
 theorem compileArgs_proper (ar : CellId → Option Nat) (params : List Val) :
     ∀ (es : List Expr) (live : Bool) (k : List Val → Prog) (h : Bool → Err → Prog),
       (∀ vs, ProperL live (k vs)) → HOK live h → ProperL live (compileArgs ar params es k h)
